@@ -190,5 +190,23 @@ pub fn scenarios(tier: Tier) -> Vec<Scenario> {
         prog = prog.main(vec![Op::AddSub { id: 1, gated: false, reads: false }, Op::SpawnAll, Op::JoinAll, Op::Stop, Op::GetMetrics(9)]);
         v.push(scn(format!("C18/{}mw{}k{}+add_middleware", pol.s(), mws, k), prog, bound, verif_rt::RunOpts::default(), check));
     }
+    // the store is also observed through a channeled subscriber and a state iterator: their
+    // private channels must not leak into the store's own counters
+    for (pol, k, bound) in if tier == Tier::Quick { vec![(Pol::Block, 2u32, 1u32)] } else { vec![(Pol::Block, 2, 2), (Pol::Oldest, 2, 2), (Pol::Latest, 3, 1)] } {
+        let mut prog = Program::new(StoreSpec::new(1, 2, pol));
+        prog = prog.thread("p0", (0..k).map(|q| Op::Dispatch(Act::new(100 + q))).collect());
+        prog = prog.thread("consumer", vec![Op::IterOpen(40), Op::OpenGate(2, 1), Op::IterNext(40, 99), Op::IterClose(40)]);
+        prog = prog.main(vec![
+            Op::AddSub { id: 1, gated: false, reads: false },
+            Op::Subscribed { id: 2, cap: 2, pol: Pol::Block, gated: false, reads: false },
+            Op::SpawnAll,
+            Op::PassGate(2),
+            Op::JoinThese(vec!["p0"]),
+            Op::Stop,
+            Op::JoinAll,
+            Op::GetMetrics(9),
+        ]);
+        v.push(scn(format!("C18/{}k{}+observers", pol.s(), k), prog, bound, opts_elide(), check));
+    }
     v
 }
